@@ -1389,6 +1389,7 @@ def regress_batch(family, env):
 
 def opt_finish(ctx, batches, env, rule, props, exe=None, level="model_checking", crash_prop=None):
     exe = exe or vbuild.opt_replay()
+    crash_prop = crash_prop or ctx.prop        # a crash (assertion, segmentation fault) of the library on a generated script is a violation
     batches = list(batches) + regress_batch("opt", env)
     ctx.family, ctx.tracespec, ctx.env_flags = "opt", "TraceOpt", env
     ctx.samples = ctx.samples or [[c for c in b if c.get("op") in ("opt_new", "set_flags", "evaluate")][:3] for b in batches[:2]]
@@ -1930,7 +1931,19 @@ def c16_ppoly_execs(r, quick):
                         for i in (-2, -1, 0, nseg - 1, nseg, nseg + 1):
                             cmds.append({"op": "at", "obj": oid, "i": i})
                         cmds.append({"op": "eval", "obj": oid, "t": gen.hx(bp[0] + 0.01), "k": 0})
-                        # valid -> invalid -> valid on the same object
+                        # valid -> invalid -> valid on the same object; first the variant DIRECTLY after a valid state (a rejected update must
+                        # not leave the old or a half-updated object behind), incl. coefficient counts that do not fit although the number
+                        # of breakpoints and the number of coefficient rows are those of the current valid state
+                        cmds.append(pp_ctor(oid, dim, ord_, bp, C, nc, op="update"))
+                        cmds.append(pp_ctor(oid, dim, ord_, b, c, n, op="update"))
+                        cmds += [{"op": "info", "obj": oid}, {"op": "at", "obj": oid, "i": 0}, {"op": "eval", "obj": oid, "t": gen.hx(bp[0] + 0.01), "k": 0}]
+                        if nm == "ok":
+                            for n2 in sorted(set((0, 1, 2, 3, nc - 1, nc + 1, 2 * nc, nseg * nc)) - {nc}):
+                                if n2 < 0:
+                                    continue
+                                cmds.append(pp_ctor(oid, dim, ord_, bp, C, nc, op="update"))
+                                cmds.append(pp_ctor(oid, dim, ord_, bp, C, n2, op="update"))
+                                cmds += [{"op": "info", "obj": oid}, {"op": "at", "obj": oid, "i": 0}]
                         cmds.append(pp_ctor(oid, dim, ord_, bp, C, nc, op="update"))
                         cmds.append(pp_ctor(oid, dim, ord_, bp[:1], [], nc, op="update"))
                         cmds.append({"op": "at", "obj": oid, "i": 0})
